@@ -64,6 +64,7 @@ type recorder struct {
 	pool *addrPool
 	veto bool // alive delegate verdict for the current call
 	meta []byte
+	userMerges int // Delegate.MergeRemoteState calls
 }
 
 func (r *recorder) add(s string) { r.mu.Lock(); r.outs = append(r.outs, s); r.mu.Unlock() }
@@ -101,7 +102,7 @@ func (d *metaDel) NodeMeta(limit int) []byte                  { return d.r.meta 
 func (d *metaDel) NotifyMsg([]byte)                           {}
 func (d *metaDel) GetBroadcasts(overhead, limit int) [][]byte { return nil }
 func (d *metaDel) LocalState(join bool) []byte                { return nil }
-func (d *metaDel) MergeRemoteState(buf []byte, join bool)     {}
+func (d *metaDel) MergeRemoteState(buf []byte, join bool)     { d.r.userMerges++ }
 
 // ---- codes ----
 
@@ -118,6 +119,10 @@ func newAddrPool() *addrPool {
 		{0x20, 0x01, 0x0d, 0xb8, 0, 0, 0, 0, 0, 0, 0, 0, 0, 0, 0, 1}, // 6: IPv6 outside
 		{0xfd, 0, 0, 0, 0, 0, 0, 0, 0, 0, 0, 0, 0, 0, 0, 7},          // 7: IPv6 inside fd00::/8
 		nil, // 8: absent address (nil, as decoded from a message without Addr)
+		{10, 0, 32, 1},  // 9: next to 10.0.0.0/22 (inside a /18)
+		{10, 0, 3, 200}, // 10: inside 10.0.0.0/22
+		{128, 0, 0, 1},  // 11: outside 0.0.0.0/1
+		{100, 0, 0, 1},  // 12: inside 0.0.0.0/1
 	}}
 }
 func (p *addrPool) addrCode(a []byte) int {
@@ -178,7 +183,18 @@ type mnode struct {
 	mdel   *mergeDelT
 }
 
+// allow-lists used when mcfg.allowlist is set (index mcfg.alist); the verdicts the model is given are
+// computed with net.IPNet.Contains, independently of Config.IPAllowed
+var allowLists = [][]string{
+	{"10.0.0.0/8", "fd00::/8"},
+	{"10.0.0.0/22"},
+	{"0.0.0.0/1", "::/0"},
+	{"10.0.0.0/13", "fd00::/9", "192.168.0.0/29"},
+	{"10.0.0.0/30", "10.0.0.8/29"},
+}
+
 type mcfg struct {
+	alist     int
 	allowlist bool
 	reclaim   bool
 	aliveDel  bool
@@ -252,7 +268,7 @@ func newMnode(c mcfg) (*mnode, error) {
 		conf.Merge = mn.mdel
 	}
 	if c.allowlist {
-		nets, err := ml.ParseCIDRs([]string{"10.0.0.0/8", "fd00::/8"})
+		nets, err := ml.ParseCIDRs(allowLists[c.alist%len(allowLists)])
 		if err != nil {
 			return nil, err
 		}
@@ -279,6 +295,20 @@ func (mn *mnode) allowed(addr []byte) bool {
 		}
 	}
 	return false
+}
+
+// allowedCodes lists the address codes of the pool that the node's allow-list admits (oracle)
+func (mn *mnode) allowedCodes() string {
+	var out []string
+	for i, a := range mn.pool.addrs {
+		if mn.allowed(a) {
+			out = append(out, fmt.Sprint(i))
+		}
+	}
+	if len(out) == 0 {
+		return "-"
+	}
+	return strings.Join(out, ".")
 }
 
 // observe renders the post-state and the effects of the last operation.
@@ -458,7 +488,7 @@ func runHistory(prop, id string, c mcfg, ops []mop) {
 	}
 	defer mn.m.Shutdown()
 	var sb strings.Builder
-	fmt.Fprintf(&sb, "%s hist id=%s cfg=%s init=%s ops=", prop, id, c, mn.observe(time.Now()))
+	fmt.Fprintf(&sb, "%s hist id=%s cfg=%s allowed=%s init=%s ops=", prop, id, c, mn.allowedCodes(), mn.observe(time.Now()))
 	for i, o := range ops {
 		if i > 0 {
 			sb.WriteByte(';')
